@@ -37,6 +37,9 @@ pub struct TxDesc {
     /// fee left to the block producer; outputs with amount 0 share what remains equally
     #[serde(default)]
     pub fee: u64,
+    /// the fee of this transaction is chosen by the runner so that the block's routing work hits a target (C08)
+    #[serde(default)]
+    pub tune: bool,
 }
 
 #[derive(Clone)]
@@ -338,7 +341,19 @@ impl LedgerWorld {
             .iter()
             .map(|h| json!([self.kn(&h.from), self.kn(&h.to)]))
             .collect();
+        // a rebroadcast transaction carries the transaction it rebroadcasts; the payout lottery looks inside
+        let inner = if tx.transaction_type == TransactionType::ATR {
+            match Transaction::deserialize_from_net(&tx.data) {
+                Ok(itx) => json!({"known": true,
+                    "from0": itx.from.first().map(|s| self.kn(&s.public_key)).unwrap_or_default(),
+                    "hops": itx.path.iter().map(|h| json!([self.kn(&h.from), self.kn(&h.to)])).collect::<Vec<Value>>()}),
+                Err(_) => json!({"known": false, "from0": "", "hops": []}),
+            }
+        } else {
+            json!({"known": false, "from0": "", "hops": []})
+        };
         json!({
+            "inner": inner,
             "id": desc.map(|d| d.id.clone()).unwrap_or_default(),
             "type": tx.transaction_type as u8,
             "auto": auto,
@@ -378,6 +393,15 @@ pub fn short(h: &SaitoHash) -> String {
 
 pub fn unique_data(s: &str) -> Vec<u8> {
     hash(s.as_bytes()).to_vec()
+}
+
+/// fee for which a path of `hops` hops delivers exactly `target` work (the first hop gets all, each further hop halves, rounding up)
+pub fn fee_for_work(target: u64, hops: usize) -> u64 {
+    let mut f = target;
+    for _ in 1..hops {
+        f = f.saturating_mul(2);
+    }
+    f
 }
 
 pub fn gt_for(parent: &Block, miner: &Key, creator: &Key, ts: Timestamp, seed: u64) -> Transaction {
